@@ -261,25 +261,31 @@ extern "C" void harness_c11_cell_sym() { run_entry(E_CELL_SYM, 6); }
 // ------------------------------------------------------------------------------------------------- the empty list
 // "every argument list of live handles: empty, ...": whatever the verdict on the empty list is, the call must be memory-safe
 // and either reject (invalid handle, mesh unchanged) or append exactly the (empty) definition.
+// (the mesh is deliberately leaked: destructors after a call with undefined behaviour only blow up the query)
 extern "C" void harness_c11_empty_face() {
-  TopologyKernel m;
+  TopologyKernel *mp = new TopologyKernel; TopologyKernel &m = *mp;
   build_base(m, v_param(0));
   Snap s0; take_snapshot(m, s0);
+  m.enable_edge_bottom_up_incidences(false);   // keeps the query small: after the invalid read everything the accepted path touches is symbolic
   std::vector<HEH> list;
   int r = m.add_face(list, true).idx();
+  v_witness("C11 add_face(empty) returned");
+#ifndef C11_EMPTY_CALL_ONLY
   Snap s1; take_snapshot(m, s1);
   v_assert(r >= 0 ? (r == s0.nF && s1.nF == s0.nF + 1 && s1.fval[s0.nF] == 0 && c11_prefix_equal(s0, s1)) : (r == -1 && snap_equal(s0, s1)),
            "C11 add_face(empty list, topologyCheck): rejected with the mesh unchanged, or exactly the empty definition appended");
-  v_witness("C11 add_face(empty) returned");
+#endif
 }
 extern "C" void harness_c11_empty_cell() {
-  TopologyKernel m;
+  TopologyKernel *mp = new TopologyKernel; TopologyKernel &m = *mp;
   build_base(m, v_param(0));
   Snap s0; take_snapshot(m, s0);
   std::vector<HFH> list;
   int r = m.add_cell(list, true).idx();
+  v_witness("C11 add_cell(empty) returned");
+#ifndef C11_EMPTY_CALL_ONLY
   Snap s1; take_snapshot(m, s1);
   v_assert(r >= 0 ? (r == s0.nC && s1.nC == s0.nC + 1 && s1.cval[s0.nC] == 0 && c11_prefix_equal(s0, s1)) : (r == -1 && snap_equal(s0, s1)),
            "C11 add_cell(empty list, topologyCheck): rejected with the mesh unchanged, or exactly the empty definition appended");
-  v_witness("C11 add_cell(empty) returned");
+#endif
 }
